@@ -123,11 +123,28 @@ def gen_music(rng, max_notes=8, channels=(0,), grid=None, horizon=400, pitches=N
     n = rng.randrange(0 if allow_empty else 1, max_notes + 1)
     last_end = {}
     notes = []
+    # "strummed chord" shape: several pitches starting within a few ticks of each other with almost equal, almost valid
+    # lengths, so that note ends lie 1-3 ticks apart - the shape in which numeric coincidences between notes (ends that
+    # swap, collide or tie under a correction) are common
+    if n >= 2 and rng.random() < 0.2:
+        t0 = rng.randrange(0, max(1, horizon // 2))
+        base_len = rng.choice(NOTE_VALUES)
+        chord = sorted({(pitches[0] - 12 + rng.randrange(0, 30)) for _ in range(n)})
+        ch = rng.choice(channels)
+        for p_ in chord:
+            if not 21 <= p_ <= 108:
+                continue
+            notes.append([ch, p_, t0 + rng.randrange(0, 5), max(1, base_len + rng.randrange(-3, 4)), rng.randrange(1, 128)])
+        n = 0
     for _ in range(n):
         ch = rng.choice(channels)
         p = rng.choice(pitches)
-        if rng.random() < 0.5:
+        r_d = rng.random()
+        if r_d < 0.4:
             dur = rng.choice(NOTE_VALUES)
+        elif r_d < 0.7:
+            # "humanised" lengths: almost a note value (where quantisation corrects in both directions)
+            dur = max(1, rng.choice(NOTE_VALUES) + rng.choice([-3, -2, -1, 1, 2, 3]))
         else:
             dur = grid * rng.randrange(1, 8)
         start_min = last_end.get((ch, p), 0)
